@@ -125,9 +125,9 @@ fn set_heights(p: &mut StarkProof) {
     }
 }
 
-pub const GROUPS: [&str; 16] = [
+pub const GROUPS: [&str; 17] = [
     "n_queries", "blowup", "blowup_mod_p", "trace_size", "last_layer_bound", "n_layers", "n_friendly", "fri_input_only", "steps_all",
-    "big_domain", "step1_shift", "zero_columns", "output_span", "program_span", "trailing_step", "drop_inner_layer",
+    "big_domain", "step1_shift", "zero_columns", "output_span", "program_span", "trailing_step", "drop_inner_layer", "page_header",
 ];
 
 pub fn group_values(name: &str) -> Vec<u64> {
@@ -159,6 +159,12 @@ pub fn group_values(name: &str) -> Vec<u64> {
         // last-layer bound raised by the steps that lost their config; v = 11, 12: one more layer
         // declared (n_layers + 1, a step of v - 10 appended, bound lowered by it) without a table config
         "drop_inner_layer" => vec![1, 2, 3, 11, 12],
+        // a continuous page header appended to the public input (no honest proof has one, so no
+        // per-position edit can produce it): v % 10 selects the size (0, 1, the whole public-memory
+        // column, column + 1, 2^60, 2^64, 2^128, p-1), v / 10 the product (1, 0, random-looking, p-1);
+        // v >= 100: two headers. The product ratio is computed during the commitment phase, long before
+        // verify_public_input refuses continuous pages
+        "page_header" => vec![0, 1, 2, 3, 4, 5, 6, 7, 10, 11, 13, 14, 17, 20, 30, 34, 100, 104, 110, 117],
         _ => vec![],
     }
 }
@@ -333,6 +339,30 @@ pub fn apply_group(p: &mut StarkProof, name: &str, v: u64) {
                 if lb <= 16 {
                     p.unsent_commitment.fri.last_layer_coefficients.resize(1usize << lb, Felt::ZERO);
                 }
+            }
+        }
+        "page_header" => {
+            let t = fu64(&p.config.log_trace_domain_size).unwrap_or(20).min(60);
+            let column = (1u64 << t) / 8; // >= every layout's public-memory column (trace / PUBLIC_MEMORY_STEP)
+            let size = match v % 10 {
+                0 => Felt::ZERO,
+                1 => Felt::ONE,
+                2 => Felt::from(column.saturating_sub(p.public_input.main_page.len() as u64)),
+                3 => Felt::from(column + 1),
+                4 => Felt::from(1u64 << 60),
+                5 => Felt::from(u64::MAX) + Felt::ONE,
+                6 => Felt::from(u128::MAX) + Felt::ONE,
+                _ => Felt::ZERO - Felt::ONE,
+            };
+            let prod = match (v / 10) % 10 {
+                0 => Felt::ONE,
+                1 => Felt::ZERO,
+                2 => Felt::from(0x1234_5678_9abc_def1u64) * Felt::from(0xfedc_ba98_7654_3211u64),
+                _ => Felt::ZERO - Felt::ONE,
+            };
+            let n = if v >= 100 { 2 } else { 1 };
+            for i in 0..n {
+                p.public_input.continuous_page_headers.push(swiftness_air::types::ContinuousPageHeader { start_address: Felt::from(1u64 << 40) + Felt::from(i as u64), size, hash: Felt::from(7u64), prod });
             }
         }
         "drop_inner_layer" => {
